@@ -113,8 +113,8 @@ class C06(object):
 
     def make_case(self, rng, idx, tier):
         if idx == 0:
-            return {'kind': 'ambient', 'models': ['SIM', 'PC', 'REG'] if tier == 'quick' else
-                    ['SIM', 'SIMEX1', 'PC', 'REG', 'REG2']}
+            return {'kind': 'ambient', 'models': ['SIM', 'PC', 'REG'] if tier == 'quick' else ['SIM', 'SIMEX1', 'PC', 'REG', 'REG2'],
+                    'scripts': 'fast' if tier == 'quick' else 'all'}
         return {'kind': 'history', 'ops': gen_history(rng), 'vseed': rng.getrandbits(32),
                 'host': rng.choice(['Sector', 'Sector', 'Household'])}
 
@@ -267,6 +267,10 @@ class C06(object):
                     built.append(name)
                 except Exception:
                     rec.count('ambient.build_failed')
+            which = case.get('scripts')
+            if which:
+                built += ['script:' + n for n in ambient.run_scripts(
+                    ambient.FAST_SCRIPTS if which == 'fast' else ambient.ALL_SCRIPTS, rec)]
         finally:
             monitors.unpatch(undo)
         for k, v in ins.counters.items():
